@@ -177,6 +177,36 @@ def target_positions(ref_pos, anch, m, place, seed, margin=MARGIN):
             else:
                 raise RuntimeError('target_positions: no tie-free far point')
             out.append(p)
+    elif place == 'neartie':
+        # almost on the bisector plane of two anchors: the two nearest anchors differ in distance by ~1e-8 nm (far
+        # above rounding, far below any sensible tolerance), the genuinely closer one having the HIGHER index
+        if na < 2:
+            return target_positions(ref_pos, anch, m, 'near', seed, margin)
+        pairs = [(a, b) for i, a in enumerate(anch) for b in anch[i + 1:]]
+        fallback = None
+        for k in range(m):
+            found = None
+            for q in range(len(pairs)):
+                lo, hi = pairs[(k + q) % len(pairs)]
+                v = ref_pos[hi] - ref_pos[lo]
+                u = v / np.linalg.norm(v)
+                for t in range(len(G)):
+                    g = G[(5 * k + t + 3) % len(G)]
+                    w = g - (g @ u) * u
+                    p = 0.5 * (ref_pos[lo] + ref_pos[hi]) + 0.15 * np.linalg.norm(v) * w / np.linalg.norm(w) + 0.5e-8 * u
+                    d = np.sort(np.linalg.norm(apos - p, axis=1))
+                    dl, dh = np.linalg.norm(p - ref_pos[lo]), np.linalg.norm(p - ref_pos[hi])
+                    # lo / hi are the two nearest anchors, hi closer by 0.2e-8 .. 2e-8, a third anchor clearly farther
+                    if 0.2e-8 < dl - dh < 2e-8 and abs(d[0] - dh) < 1e-12 and (len(d) < 3 or d[2] - d[1] >= margin):
+                        found = p
+                        break
+                if found is not None:
+                    break
+            if found is None:        # e.g. three collinear anchors: another anchor sits between every such pair
+                if fallback is None:
+                    fallback = target_positions(ref_pos, anch, m, 'near', seed, margin)
+                found = fallback[k]
+            out.append(found)
     else:
         raise ValueError(place)
     return np.array(out)
